@@ -13,16 +13,28 @@
 (*              which the same message succeeds with all controls off).                               *)
 EXTENDS Catalogue
 
+Roles4 == {"in", "out", "t1", "t2"}
 EsmStates == {"off", "fresh", "blocked", "cool", "after"}
 NoSnapshot == {"fresh", "blocked"}
 Ctl(b, e, o) == [breaker |-> b, esm |-> e, off |-> o]
 CtlOff == Ctl(FALSE, "off", {})
-Settings == {Ctl(b, e, o) : b \in BOOLEAN, e \in EsmStates, o \in SUBSET IO}
+Settings == {Ctl(b, e, o) : b \in BOOLEAN, e \in EsmStates, o \in SUBSET Roles4}
 
 (* price roles of a row on a product: a vault product whose debt asset has a fixed price needs no "out" price *)
-Products == {"oracle", "fixed", "na"}
-Px(r, prod) == IF prod = "fixed" THEN r.px \ {"out"} ELSE r.px
-Ip(r, prod) == IF prod = "fixed" THEN r.ip \ {"out"} ELSE r.ip
+(* Position shapes ("products") of a row: vault products with an oracle-priced / a fixed-price debt asset; for the borrow rows a
+   same-pool position ("na") and a CROSS-POOL position ("cross": collateral lent in one pool, debt taken from another pool, the
+   value bridged through the collateral pool's two transit assets; the collateral is not itself a transit asset).
+   Price roles of a cross-pool position: in = collateral, out = debt, t1 / t2 = the two transit assets. *)
+Products == {"oracle", "fixed", "na", "cross"}
+CrossRows == {"lend.DepositBorrow", "lend.Draw", "lend.Repay", "lend.CloseBorrow"}
+(* adding collateral to a cross-pool borrow re-computes the bridged amount from the collateral's value: it needs the collateral price *)
+Px(r, prod) == IF prod = "fixed" THEN r.px \ {"out"}
+               ELSE IF prod = "cross" /\ r.id = "lend.DepositBorrow" THEN {"in"}
+               ELSE r.px
+(* as coded, adding collateral to a cross-pool borrow also reads both transit prices (a further draw does not) *)
+Ip(r, prod) == IF prod = "fixed" THEN r.ip \ {"out"}
+               ELSE IF prod = "cross" /\ r.id = "lend.DepositBorrow" THEN {"in", "t1", "t2"}
+               ELSE r.ip
 
 (* ---------------------------------------------------------------------------------------------- *)
 (* The property (from the statement)                                                               *)
@@ -68,10 +80,14 @@ GuardsRefineProperty(r, prod, c) == MustReject(r, prod, c) => ~ImplOk(r, prod, c
 (* Block hooks and liquidation messages: "no liquidation sweep or new surplus/debt auction is started for it" *)
 Hooks == {"liqV2.sweepVault", "liqV2.sweepBorrow", "liqV2.surplus", "liqV2.debt", "liqV1.sweepVault", "liqV1.sweepBorrow",
           "aucV1.surplus", "aucV1.debt", "liqV2.msgInternalVault", "liqV2.msgInternalBorrow", "liqV1.msgVault", "liqV1.msgBorrow",
-          "app.blockHarbor", "app.blockCommodo"}     \* the application's whole begin/end-block pipeline with every trigger armed
-HookApp(h) == IF h \in {"liqV2.sweepBorrow", "liqV2.msgInternalBorrow", "liqV1.sweepBorrow", "liqV1.msgBorrow", "app.blockCommodo"} THEN "commodo" ELSE "harbor"
+          "app.blockHarbor", "app.blockCommodo",     \* the application's whole begin/end-block pipeline with every trigger armed
+          \* the same vault sweeps with the controls on the TWIN vault app (a second app in the same sweep loops) while harbor is
+          \* uncontrolled and has work; in the plain cells above it is the other way round (harbor controlled, twin has work)
+          "liqV2.sweepVault@twin", "liqV1.sweepVault@twin", "app.block@twin"}
+TwinHooks == {"liqV2.sweepVault@twin", "liqV1.sweepVault@twin", "app.block@twin"}
+HookApp(h) == IF h \in {"liqV2.sweepBorrow", "liqV2.msgInternalBorrow", "liqV1.sweepBorrow", "liqV1.msgBorrow", "app.blockCommodo"} THEN "commodo" ELSE IF h \in TwinHooks THEN "twin" ELSE "harbor"
 (* hooks that value the position with the collateral's oracle price before they seize it *)
-HookNeedsPrice(h) == h \in {"liqV2.sweepVault", "liqV2.sweepBorrow", "liqV1.sweepVault", "liqV1.sweepBorrow",
+HookNeedsPrice(h) == h \in {"liqV2.sweepVault", "liqV2.sweepBorrow", "liqV1.sweepVault", "liqV1.sweepBorrow", "liqV2.sweepVault@twin", "liqV1.sweepVault@twin",
                             "liqV2.msgInternalVault", "liqV2.msgInternalBorrow", "liqV1.msgVault", "liqV1.msgBorrow"}
 (* under a breaker the hook must neither seize a position nor start an auction for the app; nor may it seize anything
    when the oracle price it has to value the collateral with is missing or inactive *)
@@ -79,7 +95,7 @@ HookBreakerReq(h, c) == c.breaker
 HookPriceReq(h, c)   == c.esm = "off" /\ HookNeedsPrice(h) /\ c.off # {}
 HookMustIdle(h, c)   == HookBreakerReq(h, c) \/ HookPriceReq(h, c)
 (* as coded: the sweeps also idle once shutdown is executed, except the V2 borrow sweep and the V2 surplus/debt starter *)
-ImplHookIdle(h, c) == c.breaker \/ (HookNeedsPrice(h) /\ c.off # {}) \/ (c.esm # "off" /\ h \in {"liqV2.sweepVault", "liqV1.sweepVault", "aucV1.surplus", "aucV1.debt",
+ImplHookIdle(h, c) == c.breaker \/ (HookNeedsPrice(h) /\ c.off # {}) \/ (c.esm # "off" /\ h \in {"liqV2.sweepVault", "liqV1.sweepVault", "liqV2.sweepVault@twin", "liqV1.sweepVault@twin", "app.block@twin", "aucV1.surplus", "aucV1.debt",
                                                              "liqV2.msgInternalVault", "liqV1.msgVault"})
 
 (* ---------------------------------------------------------------------------------------------- *)
